@@ -304,3 +304,47 @@ def gen_rewrite(rnd):
                 partitioning=parts, loop_order=lo or None,
                 tags=["cascade", "cascade4", "output-written-twice", "rewrite-between-split-reads"])
     return spec
+
+
+def gen_affine_cascade(rnd):
+    """Two (or three) convolution-like Einsums over the SAME ranks and index variables with
+    DIFFERENT coefficients (and sometimes a different mapping): whatever the translator
+    solved, cached or partitioned for the first access must not leak into the second.
+        O[q] = I[q + s] * F[s];   P[q] = I[2*q + s] * G[s] * O[q]"""
+    n = rnd.choice([2, 2, 3])
+    Q, S = rnd.randint(3, 8), rnd.randint(1, 4)
+    decl = {"I": ["W"]}
+    ext = {"Q": Q, "S": S}
+    exprs, parts, lo, syms = [], {}, {}, {}
+    outs = ["O", "P", "R"][:n]
+    fresh = iter("FGHK")
+    wmax = 1
+    used = set()
+    for i, out in enumerate(outs):
+        for _ in range(20):
+            a, b = rnd.choice([1, 1, 2, 4]), rnd.choice([1, 1, 2, -1])
+            if (a, b) not in used:
+                break
+        used.add((a, b))
+        wmax = max(wmax, a * (Q - 1) + max(0, b * (S - 1)) + 1)
+        f = next(fresh)
+        decl[f] = ["S"]
+        facs = [Acc("I", [[(a, "q"), (b, "s")]]), _acc(f, ["S"])]
+        if i > 0 and rnd.random() < 0.6:
+            facs.append(_acc(outs[i - 1], ["Q"]))
+        rnd.shuffle(facs)
+        decl[out] = ["Q"]
+        exprs.append(Einsum(_acc(out, ["Q"]), [Term("times", facs)]))
+        k = rnd.random()
+        if k < 0.35 and a in (1, 2):
+            # (a literal size would run into KF-5: the Q0 loop walks the output alone)
+            syms["Q0"] = syms.get("Q0") or rnd.randint(2, 4)
+            parts[out] = {"Q": ["uniform_shape(Q0)"], "W": ["follow(Q)"]}
+            lo[out] = ["Q1", "Q0", "S"]
+        elif k < 0.65:
+            lo[out] = rnd.choice([["Q", "S"], ["S", "Q"]])
+    ext["W"] = wmax
+    spec = Spec(decl, exprs, partitioning=parts or None, loop_order=lo or None, syms=syms,
+                tags=["cascade", "affine-cascade", "cascade%d" % n])
+    spec._extents = ext
+    return spec
